@@ -250,20 +250,216 @@ fn one_case(rep: &Report, case: u64, trace_on: bool) -> (Out, Option<Fail>) {
     (out, fail)
 }
 
+/// Late-pin scenario: a write transaction is live on one thread while compact() is called on
+/// another (a WriteTransaction is not lifetime-bound to the Database, so `&mut Database` does not
+/// exclude it). compact() passes its first guard check and then waits for the write slot; meanwhile
+/// the holder creates a savepoint (ephemeral or persistent) and commits, keeping the savepoint
+/// alive. compact() must then refuse with the matching error and change nothing; with no savepoint
+/// it must run and leave the (holder's committed or aborted) contents unchanged.
+fn late_pin_case(seed: u64, case: u64) -> (BTreeMap<String, u64>, Option<Fail>, Cfg) {
+    use crate::backend::MonBackend;
+    use redb::{ReadableTable, TableDefinition};
+    use std::sync::atomic::{AtomicBool, Ordering};
+    const T: TableDefinition<u64, &[u8]> = TableDefinition::new("late");
+    let mut rng = Rng::for_case(seed, "C13late", case);
+    let cfg = Cfg {
+        page_size: *rng.pick(&[512usize, 1024, 4096]),
+        region_pages: *rng.pick(&[Some(32u64), Some(64), Some(256)]),
+        cache: *rng.pick(&[0usize, 65536, 1 << 30]),
+    };
+    let mut counts: BTreeMap<String, u64> = BTreeMap::new();
+    let cfg2 = cfg.clone();
+    let r = (|| -> R<()> {
+        let be = MonBackend::new();
+        be.set_sync_hook(crate::fmt::sync_hook(false));
+        let mut db = cfg.builder().create_with_backend(be.clone()).map_err(se("create_with_backend"))?;
+        let mut model: BTreeMap<u64, Vec<u8>> = BTreeMap::new();
+        let dump = |db: &redb::Database| -> R<BTreeMap<u64, Vec<u8>>> {
+            let rt = db.begin_read().map_err(se("begin_read"))?;
+            let mut m = BTreeMap::new();
+            match rt.open_table(T) {
+                Ok(t) => {
+                    for e in t.iter().map_err(se("iter"))? {
+                        let (k, v) = e.map_err(se("iter item"))?;
+                        m.insert(k.value(), v.value().to_vec());
+                    }
+                }
+                Err(redb::TableError::TableDoesNotExist(_)) => {}
+                Err(e) => return Err(Fail::Storage(format!("open_table: {e}"))),
+            }
+            Ok(m)
+        };
+        // fragment: a few commits of inserts, then deletes
+        let n_fill = rng.range(2, 6);
+        for _ in 0..n_fill {
+            let txn = db.begin_write().map_err(se("begin_write"))?;
+            {
+                let mut t = txn.open_table(T).map_err(se("open_table"))?;
+                for _ in 0..rng.range(5, 60) {
+                    let k = rng.below(300);
+                    let l = crate::world::value_len(&mut rng, cfg.page_size, 3);
+                    let v = rng.bytes(l);
+                    t.insert(k, v.as_slice()).map_err(se("insert"))?;
+                    model.insert(k, v);
+                }
+                for _ in 0..rng.range(0, 30) {
+                    let k = rng.below(300);
+                    t.remove(k).map_err(se("remove"))?;
+                    model.remove(&k);
+                }
+            }
+            txn.commit().map_err(se("commit"))?;
+        }
+        let variant = rng.below(5);
+        let vname = ["ephemeral savepoint + commit", "persistent savepoint + commit", "plain commit", "abort", "ephemeral savepoint, then abort"][variant as usize];
+        *counts.entry(format!("late.variant.{vname}")).or_insert(0) += 1;
+        let holder = db.begin_write().map_err(se("begin_write (holder)"))?;
+        let started = AtomicBool::new(false);
+        let mut esp = None;
+        let mut psp = None;
+        let mut staged = model.clone();
+        let delay_ms = *rng.pick(&[5u64, 20, 50]);
+        let writes = rng.range(0, 20);
+        let wkeys: Vec<(u64, Vec<u8>)> = (0..writes).map(|_| { let l = rng.range(0, 200) as usize; (rng.below(300), rng.bytes(l)) }).collect();
+        let len0 = be.lock().data.len();
+        let (res, hold_res) = std::thread::scope(|s| {
+            let dbm = &mut db;
+            let st = &started;
+            let h = s.spawn(move || {
+                st.store(true, Ordering::SeqCst);
+                dbm.compact()
+            });
+            while !started.load(Ordering::SeqCst) {
+                std::thread::yield_now();
+            }
+            // let compact() get past its first guard check and queue for the write slot
+            std::thread::sleep(std::time::Duration::from_millis(delay_ms));
+            let hold_res = (|| -> R<()> {
+                match variant {
+                    0 | 4 => esp = Some(holder.ephemeral_savepoint().map_err(se("ephemeral_savepoint"))?),
+                    1 => psp = Some(holder.persistent_savepoint().map_err(se("persistent_savepoint"))?),
+                    _ => {}
+                }
+                {
+                    let mut t = holder.open_table(T).map_err(se("open_table (holder)"))?;
+                    for (k, v) in &wkeys {
+                        t.insert(*k, v.as_slice()).map_err(se("insert (holder)"))?;
+                        staged.insert(*k, v.clone());
+                    }
+                }
+                match variant {
+                    0 | 1 | 2 => {
+                        holder.commit().map_err(se("commit (holder)"))?;
+                        model = staged.clone();
+                    }
+                    _ => holder.abort().map_err(se("abort (holder)"))?,
+                }
+                Ok(())
+            })();
+            (h.join(), hold_res)
+        });
+        hold_res?;
+        let res = match res {
+            Ok(r) => r,
+            Err(_) => return Err(Fail::Oracle("compact() panicked while a write transaction begun before it was finishing".into())),
+        };
+        let got = match &res {
+            Err(CompactionError::PersistentSavepointExists) => "PersistentSavepointExists",
+            Err(CompactionError::EphemeralSavepointExists) => "EphemeralSavepointExists",
+            Err(CompactionError::TransactionInProgress) => "TransactionInProgress",
+            Err(CompactionError::Storage(e)) => return Err(Fail::Oracle(format!("late pin ({vname}): compact() failed: {e}"))),
+            Err(_) => "other error",
+            Ok(_) => "ran",
+        };
+        // variant 4: the savepoint handle outlives the aborted transaction that created it: it still
+        // holds a read reference but is no longer a registered savepoint, either refusal is the
+        // documented behaviour for a live pin
+        let ok = match variant {
+            0 => got == "EphemeralSavepointExists",
+            1 => got == "PersistentSavepointExists",
+            4 => got == "EphemeralSavepointExists" || got == "TransactionInProgress" || got == "ran",
+            _ => got == "ran",
+        };
+        ensure!(
+            ok,
+            "late pin: a write transaction that was live when compact() was called did '{vname}' while compact() waited for the write slot; compact() returned '{got}'"
+        );
+        *counts.entry(format!("late.outcome.{got}")).or_insert(0) += 1;
+        let after = dump(&db)?;
+        ensure!(after == model, "late pin ({vname}): contents after compact() returned '{got}' differ from the committed contents");
+        if got != "ran" && variant != 2 && variant != 3 {
+            // refused: the file may have been changed by the holder's commit only; it must not shrink
+            // below what the savepoint needs -- judged by reading the savepoint back below
+        }
+        let _ = len0;
+        // the pinned snapshot must still be restorable exactly
+        if let Some(sp) = esp.as_ref() {
+            if variant == 0 {
+                let txn = db.begin_write().map_err(se("begin_write"))?;
+                let mut txn = txn;
+                txn.restore_savepoint(sp).map_err(se("restore_savepoint (late pin)"))?;
+                txn.abort().map_err(se("abort"))?;
+            }
+        }
+        drop(esp);
+        if let Some(id) = psp {
+            let txn = db.begin_write().map_err(se("begin_write"))?;
+            txn.delete_persistent_savepoint(id).map_err(se("delete_persistent_savepoint"))?;
+            txn.commit().map_err(se("commit"))?;
+        }
+        // with the pins gone compaction must run, terminate and keep the contents
+        match db.compact() {
+            Ok(_) => {}
+            Err(e) => return Err(Fail::Oracle(format!("late pin ({vname}): compact() after the pins were removed failed: {e}"))),
+        }
+        let after = dump(&db)?;
+        ensure!(after == model, "late pin ({vname}): contents changed by the final compact()");
+        match db.check_integrity() {
+            Ok(true) => {}
+            other => return Err(Fail::Oracle(format!("late pin ({vname}): check_integrity() after compaction returned {other:?}"))),
+        }
+        drop(db);
+        if let Some(v) = be.take_violations().first() {
+            return Err(Fail::Oracle(format!("backend contract: {v}")));
+        }
+        if let Some(e) = be.take_sync_errors().first() {
+            return Err(Fail::Oracle(format!("format: {e}")));
+        }
+        Ok(())
+    })();
+    (counts, r.err(), cfg2)
+}
+
 pub fn run(rep: &Report) {
     rep.set_rule(
-        "case = a history that fragments a multi-region file (interleaved inserts/deletes, large values, multimap subtrees, pending frees, pending non-durable commits, readers and savepoints), then: (1) compact() with a reader / ephemeral / persistent savepoint alive must return the matching CompactionError and change neither contents nor file length; (2) after the pins are removed compact() runs 1-3 times: contents (full dump) unchanged, file length at return not larger than before the call, transactions consumed <= 4*allocated_pages+16 (logical bound on the number of passes), ownership accountant balanced, every sync image well-formed; (3) for part of the cases every storage operation inside the compaction is a crash point: the recovered contents must be the unchanged contents. evaluations = compactions + refusals + crash images; distinct_nontrivial = distinct cases in which a compaction actually shrank the file",
+        "case = a history that fragments a multi-region file (interleaved inserts/deletes, large values, multimap subtrees, pending frees, pending non-durable commits, readers and savepoints), then: (1) compact() with a reader / ephemeral / persistent savepoint alive must return the matching CompactionError and change neither contents nor file length; (2) after the pins are removed compact() runs 1-3 times: contents (full dump) unchanged, file length at return not larger than before the call, transactions consumed <= 4*allocated_pages+16 (logical bound on the number of passes), ownership accountant balanced, every sync image well-formed; (3) for part of the cases every storage operation inside the compaction is a crash point: the recovered contents must be the unchanged contents. (4) late-pin scenarios: a write transaction that was live when compact() was called on another thread creates an ephemeral or persistent savepoint (or just commits / aborts) while compact() waits for the write slot; compact() must refuse with the matching error (or run, when no pin was created), contents must equal the committed contents, and a final compact() without pins must run. evaluations = compactions + refusals + crash images + late-pin scenarios; distinct_nontrivial = distinct cases in which a compaction actually shrank the file",
     );
     rep.assume("the wall-clock watchdog is the driver's; the pass bound is a logical count of transaction ids consumed");
-    let n = match rep.tier {
-        Tier::Quick => 10_000u64,
-        Tier::Thorough => 120_000u64,
+    let (n, n_late) = match rep.tier {
+        Tier::Quick => (10_000u64, 600u64),
+        Tier::Thorough => (120_000u64, 6_000u64),
     };
     run_cases(
         rep,
-        n,
+        n + n_late,
         |case| {
             let replay = json!({"check": "C13", "seed": rep.seed, "case": case, "tier": rep.tier.name()});
+            if case >= n {
+                let (counts, fail, cfg) = late_pin_case(rep.seed, case);
+                rep.eval(1);
+                rep.count("late_pin_scenarios", 1);
+                for (k, v) in &counts {
+                    rep.count(k, *v);
+                }
+                if let Some(f) = fail {
+                    rep.violation(
+                        format!("compact:{}", short_sig(f.text())),
+                        format!("case {case} cfg {cfg:?}: {}", f.text()),
+                        replay,
+                    );
+                }
+                return;
+            }
             let trace_on = rep.replay_only.is_some() || rep.want_sample();
             let (out, fail) = one_case(rep, case, trace_on);
             let refusals: u64 = out.refusals.values().sum();
